@@ -7,8 +7,14 @@ use serde_json::json;
 
 pub fn keys(uniform: bool) -> Vec<B> {
 	if uniform {
-		// two 32-byte keys and one 40-byte key whose first 32 bytes differ from both
-		vec![B::pat(32, 101), B::pat(32, 102), B::pat(40, 103)]
+		// a 32-byte key P, P extended by one byte, P extended by 8 other bytes (three distinct keys that share
+		// their first 32 bytes), and an unrelated 32-byte key
+		let p = B::pat(32, 101).bytes();
+		let mut p1 = p.clone();
+		p1.push(b'a');
+		let mut p8 = p.clone();
+		p8.extend_from_slice(b"bcdefghi");
+		vec![B::Hex(p), B::Hex(p1), B::Hex(p8), B::pat(32, 102)]
 	} else {
 		// "", "a", a 300-byte key, a key differing from "a" in the last byte
 		vec![B::lit(b""), B::lit(b"a"), B::pat(300, 7), B::lit(b"b")]
